@@ -853,10 +853,10 @@ def hb_jobs(tier):
 
 def main(tier, seed):
     t0 = core.now()
-    bound = 3 if tier == 'quick' else 4
+    bound = 3 if tier == 'quick' else 5
     hs = histories(tier)
     jobs = [(h, bound if len(h) < 3 or (tier == 'thorough' and len(h) == 3 and all(tuple(r) in _CORE3 for r in h)) else min(bound, 2), False) for h in hs]
-    jobs += [(h, 2 if tier == 'quick' else 3, True) for h in hs if len(h) <= 2]
+    jobs += [(h, 2 if tier == 'quick' else 4, True) for h in hs if len(h) <= 2]
     # servers that take the authorized keys of each user from an sshd-style configuration (reloaded when the
     # user name changes): user switches with keys and certificates
     ca = [('none', 'alice'), ('none', 'bob'), ('pk', 'alice', 'ka2', 'good'), ('pk', 'bob', 'ka2', 'good'), ('pk', 'bob', 'kb', 'good'),
